@@ -791,7 +791,10 @@ class CompartmentalSystem(Statement):
         )
 
     def __hash__(self):
-        return hash((self._t, self._g))
+        # NOTE: Hash the content of the graph. A networkx graph hashes by
+        # identity, which made equal systems have different hashes.
+        edges = frozenset((u, v, rate) for u, v, rate in self._g.edges.data('rate'))
+        return hash((self._t, frozenset(self._g.nodes), edges))
 
     def to_dict(self) -> dict[str, Any]:
         comps = [comp for comp in self._g.nodes]
